@@ -5,7 +5,7 @@
    * ST0 / ST: which operations can change `ready`, `active`, `handled`, the
      user-visible part of a descriptor object, and which events they emit. *)
 From Coq Require Import List ZArith Bool Lia.
-From Ivv Require Import Core.Kernel Core.CoreTypes Core.CoreFd Core.CoreModel Core.Monitors
+From Ivv Require Import Core.Kernel Core.CoreTypes Core.CoreFd Core.CoreModel Core.Monitors Core.CoreSpec
   Core.CoreRelBase Core.CoreInvBase Core.CorePhase2FdBase Core.CorePhase2FdMon.
 From Ivv Require Timer.HeapModel.
 Import ListNotations.
@@ -247,7 +247,7 @@ Lemma rsame_refl : forall f, rsame f f. Proof. intros; repeat split. Qed.
 Lemma rsame_trans : forall a b c, rsame a b -> rsame b c -> rsame a c.
 Proof. unfold rsame. intros a b c (A1&A2&A3&A4&A5&A6) (B1&B2&B3&B4&B5&B6). repeat split; congruence. Qed.
 
-Definition TrExt (s s' : core) : Prop := exists evs, trace s' = evs ++ trace s /\ Forall lsil evs.
+Definition TrExt (s s' : core) : Prop := exists evs, trace s' = evs ++ trace s /\ Forall sil evs.
 
 Lemma TrExt_refl : forall s, TrExt s s.
 Proof. intros s. exists []. split; [reflexivity|constructor]. Qed.
@@ -319,12 +319,12 @@ Lemma ST_bind : forall w k s r f, ST w k s (res_state r) -> (forall s1, ST w k s
   ST w k s (res_state (bind r f)).
 Proof. intros w k s r f H K. destruct r as [s1|s1]; cbn [bind res_state] in *; [eapply ST_trans; [eassumption|apply K]|assumption]. Qed.
 
-Lemma ST0_emit : forall s e, lsil e -> ST0 s (emit s e).
+Lemma ST0_emit : forall s e, sil e -> ST0 s (emit s e).
 Proof.
   intros s e L. constructor; sp; auto using rsame_refl.
   exists [e]. split; [reflexivity|constructor; [assumption|constructor]].
 Qed.
-Lemma ST0_halt : forall s e, lsil e -> ST0 s (res_state (halt s e)).
+Lemma ST0_halt : forall s e, sil e -> ST0 s (res_state (halt s e)).
 Proof. intros. apply ST0_emit. assumption. Qed.
 
 Ltac st0_basic :=
@@ -839,4 +839,154 @@ Proof.
     destruct (last_abs_count s2 =? 5); [|exact S2].
     destruct abs as [a|]; [|exact S2]. eapply ST0_trans; [exact S2|apply set_poll_timeout_st0].
   - destruct abs as [a|]; cbn [fst res_state]; (eapply ST0_trans; [exact S1|apply ST0_set_last_abs]).
+Qed.
+
+(* ---------- actions ---------- *)
+Definition UF (s : core) : Prop := forall k, 0 <= k < 16 -> fdnum (fdt s k) = 100 + k.
+
+Definition ak (a : action) : Z :=
+  match a with
+  | AFdReg i | AFdTry i | AFdUnreg i | AFdSetH i _ _ | AFdFresh i => i
+  | ARwReg j | ARwUnreg j => RAW_KEY j
+  | AEvReg _ | AEvUnreg _ => 32
+  | _ => -1
+  end.
+Definition aw (a : action) : bool :=
+  match a with AFdReg _ | AFdTry _ | AFdFresh _ | ARwReg _ | AEvReg _ => true | _ => false end.
+
+Record Log (a : action) (s s0 : core) : Prop := {
+  lg_tr : exists a', trace s0 = TAct a' :: trace s /\
+          (forall m, tv (mon_action m a') = (w_gnd m, called m, expect_after a (expect m)));
+  lg_fdt : fdt s0 = fdt s;
+  lg_act : active s0 = active s;
+  lg_hd : handled s0 = handled s;
+  lg_kern : kern s0 = kern s }.
+
+Lemma Log_emit : forall s a, Log a s (emit s (TAct a)).
+Proof.
+  intros s a. constructor; try reflexivity. exists a. split; [reflexivity|]. intros m. apply tv_action.
+Qed.
+
+Lemma trace_validate : forall s, trace (validate_now s) = trace s.
+Proof. intros s. unfold validate_now. destruct (time_valid s); reflexivity. Qed.
+
+Lemma ST0_res_emit : forall s r e, sil e -> ST0 s (res_state r) ->
+  ST0 s (res_state (bind r (fun s1 => R (emit s1 e)))).
+Proof. intros s r e S H. apply ST0_bind; [exact H|]. intros s1. apply ST0_emit. exact S. Qed.
+
+Lemma ST_res_emit : forall w k s r e, sil e -> ST w k s (res_state r) ->
+  ST w k s (res_state (bind r (fun s1 => R (emit s1 e)))).
+Proof. intros w k s r e S H. apply ST_bind; [exact H|]. intros s1. apply ST0_ST. apply ST0_emit. exact S. Qed.
+
+Definition guardf (a : action) (s : core) : Prop :=
+  match a with
+  | AFdReg i | AFdTry i | AFdFresh i => registered (fdt s i) = false
+  | ARwReg j => rw_reg s j = false
+  | AEvReg _ => ev_count s = 0
+  | _ => True
+  end.
+
+Definition seth (f : fdo) (band : Z) (h : option Z) : fdo :=
+  if band =? 0 then fd_with_handlers f h (h_out f) (h_err f)
+  else if band =? 1 then fd_with_handlers f (h_in f) h (h_err f)
+  else fd_with_handlers f (h_in f) (h_out f) h.
+
+Lemma fd_set_handler_st0 : forall s k band h,
+  ST0 (putfd s k (seth (fdt s k) band h)) (res_state (fd_set_handler s k band h)).
+Proof.
+  intros s k band h. unfold fd_set_handler, getfd. fold (seth (fdt s k) band h).
+  destruct (registered (fdt s k)); cbn [res_state]; [apply notify_fd_st0|apply ST0_refl].
+Qed.
+
+Lemma event_register_st0 : forall s j, ev_count s <> 0 -> ST0 s (res_state (fst (event_register s j))).
+Proof.
+  intros s j N. rewrite event_register_unfold2. cbv zeta.
+  change (ev_count (set_numobjs s (numobjs s + 1))) with (ev_count s).
+  destruct (Z.eqb_spec (ev_count s) 0) as [E|_]; [contradiction|].
+  unfold ev_fin. cbn [fst bind res_state].
+  eapply ST0_trans; [apply ST0_set_numobjs|]. eapply ST0_trans; [apply ST0_set_ev|apply ST0_set_ev].
+Qed.
+
+Definition StepOf (a : action) (s s0 s' : core) : Prop :=
+  Log a s s0 /\
+  (ST false (ak a) s0 s' \/ (ST true (ak a) s0 s' /\ guardf a s)) /\
+  (forall i band h, a = AFdSetH i band h -> ST0 (putfd s0 i (seth (fdt s0 i) band h)) s').
+
+Lemma do_action_st : forall s a, wf_action a -> UF s ->
+  res_state (do_action s a) = s \/ exists s0, StepOf a s s0 (res_state (do_action s a)).
+Proof.
+  intros s a W U.
+  assert (EX0 : forall r, (forall i band h, a <> AFdSetH i band h) ->
+               ST false (ak a) (emit s (TAct a)) (res_state r) ->
+               res_state r = s \/ exists s0, StepOf a s s0 (res_state r)).
+  { intros r NS H. right. exists (emit s (TAct a)). split; [apply Log_emit|]. split; [left; exact H|].
+    intros i band h E. exfalso. exact (NS _ _ _ E). }
+  assert (EX1 : forall r, (forall i band h, a <> AFdSetH i band h) -> guardf a s ->
+               ST true (ak a) (emit s (TAct a)) (res_state r) ->
+               res_state r = s \/ exists s0, StepOf a s s0 (res_state r)).
+  { intros r NS G H. right. exists (emit s (TAct a)). split; [apply Log_emit|]. split; [right; split; assumption|].
+    intros i band h E. exfalso. exact (NS _ _ _ E). }
+  destruct a; cbn [do_action]; cbv zeta; cbn [wf_action] in W.
+  - (* AFdReg *) destruct (registered (getfd s i)) eqn:RG; [left; reflexivity|].
+    destruct (k_open (kern s) (fdnum (getfd s i))); [|left; reflexivity].
+    apply EX1; [discriminate|exact RG|apply fd_register_st].
+  - (* AFdTry *) destruct (registered (getfd s i)) eqn:RG; [left; reflexivity|].
+    pose proof (fd_register_try_st (emit s (TAct (AFdTry i))) i) as H.
+    destruct (fd_register_try (emit s (TAct (AFdTry i))) i) as [r failed]. cbn [fst] in H.
+    apply EX1; [discriminate|exact RG|]. apply ST_res_emit; [exact I|exact H].
+  - (* AFdUnreg *) destruct (registered (getfd s i)); [|left; reflexivity].
+    apply EX0; [discriminate|apply fd_unregister_st].
+  - (* AFdSetH *) right. exists (emit s (TAct (AFdSetH i band h))). split; [apply Log_emit|].
+    split; [left; apply fd_set_handler_st|]. intros i0 b0 h0 E. inversion E; subst. apply fd_set_handler_st0.
+  - (* AFdCookie *) apply EX0; [discriminate|]. cbn [res_state]. apply ST0_ST. apply ST0_putfd. repeat split.
+  - (* AFdFresh *) destruct (registered (getfd s i)) eqn:RG; [left; reflexivity|].
+    apply EX1; [discriminate|exact RG|]. cbn [res_state aw ak].
+    apply ST_putfd_gen; [|discriminate]. intros R. cbn [fdnum fd_fresh]. sp. symmetry. apply U. exact R.
+  - (* AKSet *) apply EX0; [discriminate|]. cbn [res_state]. apply ST0_ST. apply ST0_kern. sp. apply KX_set_cond.
+  - (* AKClose *) destruct (registered (getfd s i)); [left; reflexivity|]. apply EX0; [discriminate|]. cbn [res_state].
+    apply ST0_ST. apply ST0_kern. sp. apply KX_user_close.
+  - (* AKOpen *) apply EX0; [discriminate|]. cbn [res_state]. apply ST0_ST. apply ST0_kern. sp. apply KX_user_fd.
+  - (* ATmRegAbs *) destruct (timer_registered s j); [left; reflexivity|].
+    apply EX0; [discriminate|]. apply ST0_ST. apply lift_heap_st0.
+  - (* ATmRegRel *) destruct (timer_registered s j); [left; reflexivity|]. right.
+    exists (emit (validate_now s) (TAct (ATmRegAbs j (time (validate_now s) + d)))). split; [|split].
+    + constructor.
+      * eexists. split; [cbn [trace emit set_trace]; rewrite trace_validate; reflexivity|]. intros m. reflexivity.
+      * unfold validate_now. destruct (time_valid s); reflexivity.
+      * unfold validate_now. destruct (time_valid s); reflexivity.
+      * unfold validate_now. destruct (time_valid s); reflexivity.
+      * unfold validate_now. destruct (time_valid s); reflexivity.
+    + left. apply ST0_ST. apply lift_heap_st0.
+    + intros i b h E. discriminate E.
+  - (* ATmUnreg *) destruct (timer_registered s j); [|left; reflexivity].
+    apply EX0; [discriminate|]. apply ST0_ST. apply lift_heap_st0.
+  - (* ATmFresh *) destruct (timer_registered s j); [left; reflexivity|]. apply EX0; [discriminate|]. apply ST_refl.
+  - (* ATkReg *) destruct (task_registered s j); [left; reflexivity|].
+    apply EX0; [discriminate|]. apply ST0_ST. apply task_register_st0.
+  - (* ATkUnreg *) destruct (task_registered s j); [|left; reflexivity].
+    apply EX0; [discriminate|]. apply ST0_ST. apply task_unregister_st0.
+  - (* ATkFresh *) destruct (task_registered s j); [left; reflexivity|].
+    apply EX0; [discriminate|]. apply ST0_ST. apply ST0_set_epoch.
+  - (* AEvReg *) destruct (ev_reg s j); [left; reflexivity|].
+    destruct (Z.eq_dec (ev_count s) 0) as [E0|N0].
+    + pose proof (event_register_st (emit s (TAct (AEvReg j))) j) as H.
+      destruct (event_register (emit s (TAct (AEvReg j))) j) as [r failed]. cbn [fst] in H.
+      apply EX1; [discriminate|exact E0|]. apply ST_res_emit; [exact I|exact H].
+    + pose proof (event_register_st0 (emit s (TAct (AEvReg j))) j N0) as H.
+      destruct (event_register (emit s (TAct (AEvReg j))) j) as [r failed]. cbn [fst] in H.
+      apply EX0; [discriminate|]. apply ST0_ST. apply ST0_res_emit; [exact I|exact H].
+  - (* AEvUnreg *) destruct (ev_reg s j); [|left; reflexivity]. apply EX0; [discriminate|]. apply event_unregister_st.
+  - (* AEvPost *) destruct (ev_reg s j); [|left; reflexivity]. apply EX0; [discriminate|]. apply ST0_ST. apply event_post_st0.
+  - (* AEvFresh *) destruct (ev_reg s j); [left; reflexivity|]. apply EX0; [discriminate|]. apply ST_refl.
+  - (* ARwReg *) destruct (rw_reg s j) eqn:RG; [left; reflexivity|].
+    pose proof (raw_register_st (emit s (TAct (ARwReg j))) j ltac:(unfold ok_idx in W; lia)) as H.
+    destruct (raw_register (emit s (TAct (ARwReg j))) j) as [r failed]. cbn [fst] in H.
+    apply EX1; [discriminate|exact RG|]. apply ST_res_emit; [exact I|exact H].
+  - (* ARwUnreg *) destruct (rw_reg s j); [|left; reflexivity]. apply EX0; [discriminate|]. apply raw_unregister_st.
+  - (* ARwPost *) destruct (rw_reg s j); [|left; reflexivity]. apply EX0; [discriminate|]. apply ST0_ST. apply raw_post_st0.
+  - (* ARwFresh *) destruct (rw_reg s j); [left; reflexivity|]. apply EX0; [discriminate|]. apply ST_refl.
+  - (* AQuit *) apply EX0; [discriminate|]. apply ST0_ST. apply ST0_set_quit.
+  - (* AClockAdv *) apply EX0; [discriminate|]. cbn [res_state]. apply ST0_ST. apply ST0_kern. sp. apply KX_set_clock.
+  - (* AInvalidate *) apply EX0; [discriminate|]. apply ST0_ST. apply invalidate_st0.
+  - (* AValidate *) apply EX0; [discriminate|]. apply ST0_ST. apply validate_st0.
 Qed.
